@@ -36,13 +36,12 @@ ASSUMPTIONS = [
     "int()/float() of a stat token are modelled for the decimal tokens the kernel writes",
 ]
 MANIFEST = {
-    "level_text": "Machine-checked Lean 4 proofs over a transcription of ppid_map()/children()/parent()/parents()/_raise_if_pid_reused(): for EVERY ppid map and every start-time assignment (forests, self-loops, cycles, unlisted parents, ties) children() is exactly the set of listed processes whose parent link is the caller and that are not older than it, children(recursive=True) is exactly the inductive reachability closure minus the caller, each PID once (C05_children_exact, C05_children_rec_exact, C05_nodup, C05_not_self, C05_no_older), the walk terminates on any graph (C05_terminates: a proved fuel bound; without the `seen` guard divergence is proved), parent() is the process named by ppid() unless younger (C05_parent_spec), parents() is the parent chain and terminates (C05_parents_chain, C05_parents_terminates), a recycled caller gets NoSuchProcess (C05_recycled_caller_NSP), and both stat readers recover ppid/starttime for every comm byte string (C05_stat_roundtrip). The model is tied to the code by translator facts (the three `<=`, the seen guard, the own-PID drop, the parents() cycle stop, the identity pre-checks, the lowest-PID stop, rfind/index facts) feeding the proof obligations cfg_good/scfg_good, and by a differential run of the real methods over fake procfs tables, random and exhaustive.",
-    "level_note": "Trusted: Lean kernel + {propext, Classical.choice, Quot.sound}; the translator; the correspondence harness; float create_time modelled by integer ticks (monotonicity checked at run time); atomic file reads; parent()/parents() on a constant table. Known finding: a caller first seen gone and then recycled is not detected (same root cause as C01/L1).",
+    "level_text": "Machine-checked Lean 4 proofs over a transcription of ppid_map()/children()/parent()/parents()/_raise_if_pid_reused(): for EVERY ppid map and every start-time assignment (forests, self-loops, cycles, unlisted parents, ties) children() is exactly the set of listed processes whose parent link is the caller and that are not older than it, children(recursive=True) is exactly the inductive reachability closure minus the caller, each PID once (C05_children_exact, C05_children_rec_exact, C05_nodup, C05_not_self, C05_no_older), the walk terminates on any graph (C05_terminates: a proved fuel bound; without the `seen` guard divergence is proved), parent() is the process named by ppid() unless younger (C05_parent_spec), parents() is the parent chain and terminates (C05_parents_chain, C05_parents_terminates), a caller whose incarnation is gone or whose PID was recycled gets NoSuchProcess whatever the object saw before (C05_dead_caller_NSP, C05_recycled_caller_NSP at full strength), and both stat readers recover ppid/starttime for every comm byte string (C05_stat_roundtrip). The model is tied to the code by translator facts (the three `<=`, the seen guard, the own-PID drop, the parents() cycle stop, the identity pre-checks incl. the `_gone` test, the lowest-PID stop, rfind/index facts) feeding the proof obligations cfg_good/scfg_good, and by a differential run of the real methods over fake procfs tables, random and exhaustive.",
+    "level_note": "Trusted: Lean kernel + {propext, Classical.choice, Quot.sound}; the translator; the correspondence harness; float create_time modelled by integer ticks (monotonicity checked at run time); atomic file reads; parent()/parents() on a constant table.",
     "technique": "Lean 4 proof (DFS invariant + fuel bound, induction over the reachability relation, case analysis) + translator-fed proof obligations + differential correspondence on fake procfs with exhaustive small tables",
     "design_ref": "DESIGN.md §5 C05",
 }
 
-FINDING_GONE = "C05-gone-then-recycled"
 BOOT = 1000.0
 MAX_TICKS = 4096
 
@@ -516,11 +515,6 @@ def table_features(case):
 # ------------------------------------------------------------------------------ correspondence
 
 
-def in_gone_region(m):
-    fl = m["flags"]
-    return fl["pre_gone"] and not fl["pre_reused"] and fl["recycled"]
-
-
 def judge(case, obs, running, extra, m, res, source, record=True):
     """Compare one executed case. Returns 'spec' / 'model' / None (and records it)."""
     inp = {"case": case, "source": source}
@@ -557,14 +551,6 @@ def judge(case, obs, running, extra, m, res, source, record=True):
             res.disagree("model", inp, {"is_running": running}, {"is_running": m["running"]}, None,
                          note="is_running() differs from the model")
         return "model"
-    if in_gone_region(m):
-        res.known_seen[FINDING_GONE] = res.known_seen.get(FINDING_GONE, 0) + (1 if record else 0)
-        if obs == sp or obs == mo:
-            return None
-        if record:
-            res.disagree("spec", inp, obs, mo, sp, finding=None,
-                         note="inside the region of %s but neither the recorded defective behaviour nor the specification" % FINDING_GONE)
-        return "spec"
     if spec_applies and obs != sp:
         if record:
             res.disagree("spec", inp, obs, mo, sp, note="%s(): implementation differs from the specification" % call)
@@ -877,18 +863,16 @@ def replay(ctx, rp, res):
 
 
 def check_finding(ctx, fnd):
-    if fnd.get("id") != FINDING_GONE:
+    """C05 has no open finding (C05-gone-then-recycled was fixed by 7deac49 in /repo; its witness is
+    part of the corpus). Kept harmless for an entry that might still be listed."""
+    w = fnd.get("witness") or {}
+    if not all(k in w for k in ("call", "pid", "mk", "t0")):
         return "unknown"
-    w = fnd["witness"]
-    case = mk_case(w["call"], w["pid"], w["t0"], mk=w["mk"], mid=w["mid"])
+    case = mk_case(w["call"], w["pid"], w["t0"], mk=w["mk"], mid=w.get("mid"))
     impl = Impl(ctx)
     try:
         m = ctx.driver().batch([strip(case)])[0]
         obs, running, extra = impl.run_case(case)
-        if obs == m["spec"]:
-            return "gone"
-        if obs == w["defective_output"]:
-            return "reproduces"
-        return "changed:%r" % (obs,)
+        return "gone" if obs == m["spec"] else "reproduces"
     finally:
         impl.close()
